@@ -259,9 +259,13 @@ def todo_analysis(ctx):
             blocks, decided = cells.feasible(body, cprov, ev)
             if blk.idx in blocks:
                 # values drawn through Iterator::filter: kinds the closure rejects do not reach the site
-                if flow.mentions(arg, lambda s: s[0] == "call" and (s[1] or "").endswith("::filter")) and \
-                        cells.filter_verdict(facts, body, cprov, ev) is False:
+                if cells.filter_verdict_of(facts, arg, ev) is False:
                     continue
+                # the site sits in a closure fed by an iterator consumer (for_each / try_for_each): the receiver's filter decides
+                if body.kind == "Closure":
+                    feed = cells.closure_feed(facts, body)
+                    if feed is not None and cells.filter_verdict_of(facts, feed[3], ev) is False:
+                        continue
                 reach.append(name)
         hit = sorted(set(reach) & set(bad))
         rows.append((body, blk, hit, sorted(reach)))
@@ -367,13 +371,15 @@ VALIDATORS = {"bookmark": v_bookmark, "keysize": v_keysize, "todo": v_todo, "poo
 
 
 # ---------------------------------------------------------------------------- property-level rules
+# The floors below are vacuity guards (about half of what was counted on the reference tree): a refactoring that
+# legitimately merges or removes sites must not trip them, a scope or an engine that lost most of its sites must.
 def c01_panic(ctx, rep, rule):
     scope = scope_closure(ctx, RECV_ROOTS)
     n = report_sites(ctx, rep, rule, scope)
-    if n < 100:
-        rep.violation(rule, "floor", "only %d obligations on the receive path, floor is 100: the scope or the engine lost sites" % n)
-    if len(scope) < 100:
-        rep.violation(rule, "scope-floor", "receive-path closure has %d bodies, floor is 100" % len(scope))
+    if n < 50:
+        rep.violation(rule, "floor", "only %d obligations on the receive path, floor is 50: the scope or the engine lost sites" % n)
+    if len(scope) < 50:
+        rep.violation(rule, "scope-floor", "receive-path closure has %d bodies, floor is 50" % len(scope))
 
 
 def c17_sites(ctx, rep, rule):
@@ -381,22 +387,22 @@ def c17_sites(ctx, rep, rule):
     scope = {b.path for b in facts.body_list if b.path.startswith("buf::") or b.path.startswith("<buf::")}
     scope |= scope_closure(ctx, SEND_ROOTS)
     n = report_sites(ctx, rep, rule, scope)
-    if n < 90:
-        rep.violation(rule, "floor", "only %d obligations in the buffer / send-path scope, floor is 90" % n)
+    if n < 45:
+        rep.violation(rule, "floor", "only %d obligations in the buffer / send-path scope, floor is 45" % n)
 
 
 def c12_refuse(ctx, rep, rule):
     scope = scope_closure(ctx, KEY_ROOTS)
     n = report_sites(ctx, rep, rule, scope)
-    if n < 30:
-        rep.violation(rule, "floor", "only %d obligations on the key-installation paths, floor is 30" % n)
+    if n < 15:
+        rep.violation(rule, "floor", "only %d obligations on the key-installation paths, floor is 15" % n)
 
 
 def c08_sites(ctx, rep, rule):
     scope = scope_closure(ctx, OID_ROOTS)
     n = report_sites(ctx, rep, rule, scope)
-    if n < 15:
-        rep.violation(rule, "floor", "only %d obligations in the OID conversions, floor is 15" % n)
+    if n < 8:
+        rep.violation(rule, "floor", "only %d obligations in the OID conversions, floor is 8" % n)
 
 
 def c15_nowrap(ctx, rep, rule):
@@ -404,12 +410,12 @@ def c15_nowrap(ctx, rep, rule):
     scope = {b.path for b in facts.body_list if b.file in ("src/ber/int.rs", "src/ber/objectid.rs", "src/ber/null.rs") or
              b.path in ("buf::buffer::Buffer::push_tag_len", "buf::buffer::Buffer::push_tagged")}
     n = report_sites(ctx, rep, rule, scope)
-    if n < 25:
-        rep.violation(rule, "floor", "only %d obligations in the integer / OID codecs, floor is 25" % n)
+    if n < 12:
+        rep.violation(rule, "floor", "only %d obligations in the integer / OID codecs, floor is 12" % n)
 
 
 def c03_nopanic(ctx, rep, rule):
     scope = scope_closure(ctx, SEND_ROOTS)
     n = report_sites(ctx, rep, rule, scope)
-    if n < 60:
-        rep.violation(rule, "floor", "only %d obligations on the send path, floor is 60" % n)
+    if n < 30:
+        rep.violation(rule, "floor", "only %d obligations on the send path, floor is 30" % n)
